@@ -36,6 +36,7 @@ class Sym:
         self.crate, self.b = crate, body
         self.order = M.rpo(body)
         self.pos = {blk: i for i, blk in enumerate(self.order)}
+        self._active = set()
 
     # ---------------------------------------------------------------- values
     def const_atom(self, c):
@@ -77,6 +78,16 @@ class Sym:
         return v if v is not None else [("unknown", "no definition reaches this use")]
 
     def _val(self, local, proj=(), depth=0):
+        key = (local, tuple(proj or ()))
+        if key in self._active:
+            return [("unknown", "defined in terms of itself (a loop)")]
+        self._active.add(key)
+        try:
+            return self._val1(local, proj, depth)
+        finally:
+            self._active.discard(key)
+
+    def _val1(self, local, proj=(), depth=0):
         b = self.b
         proj = [x for x in (proj or []) if x != "*"]
         if depth > 25:
@@ -332,6 +343,14 @@ class Sym:
         return self.mutations(n, param=True)
 
 
+def has_unknown(atom):
+    if atom[0] in ("unknown",):
+        return True
+    if atom[0] == "call":
+        return any(has_unknown(x) for v in atom[2] if v for x in v)
+    return False
+
+
 def expand(crate, atoms, stop=(), prefix="export::", depth=0):
     """replace calls of the crate's own helpers by what they write / return"""
     out = []
@@ -356,7 +375,7 @@ def expand(crate, atoms, stop=(), prefix="export::", depth=0):
             else:
                 res.append(x)
         res = expand(crate, res, stop, prefix, depth + 1)
-        if any(x[0] == "unknown" for x in res):
+        if any(has_unknown(x) for x in res):
             out.append(a)              # a helper this reader cannot follow stays one opaque piece
         else:
             out += res
